@@ -8,6 +8,7 @@ import Tickit.Proof.WinClose
 import Tickit.Proof.WinScroll
 import Tickit.Proof.WinFull
 import Tickit.Proof.WinScrollStep
+import Tickit.Proof.WinNodup
 import Tickit.Props.C02
 /-
   C01 — The flushed screen equals the painter's-model composition of the window tree.
@@ -885,6 +886,20 @@ theorem C01_full_frame {content : Id → Int → Int → Cell} {beh : Id → Rec
     (_hreach : Reach content beh st) (st' : St) (t : Tree) (shots : List Shot) (h : flushRender beh st t = .ok (st', shots)) :
     ∀ L C, ¬ Covered t.root.damage L C → st'.screen L C = st.screen L C :=
   flush_keeps_undamaged beh st st' t shots h
+
+/-- **C02's last clause along every history**: in every reachable state, the rectangles handed to one window during a
+    flush are pairwise disjoint.  Both hypotheses of `Props.C02.handed_rects_disjoint` are invariants: the damage set
+    satisfies C05's `Inv` (so its rectangles are pairwise disjoint), and no window occurs twice in the traversal of the
+    tree (`visitIds_nodup`, from the structural invariants of `GoodQ`). -/
+theorem handed_rects_disjoint_reach {content : Id → Int → Int → Cell} {beh : Id → Rect → List DrawOp} {st : St}
+    (hreach : Reach content beh st) (st' : St) (shots : List Shot) (h : WinFlush.flush beh st = .ok (st', shots)) :
+    ∀ w, ((shots.map Shot.ev).filter (fun e => e.1 = w)).Pairwise (fun a b => Rect.Disjoint a.2 b.2) := by
+  obtain ⟨hg, hrep⟩ := reach_good hreach
+  obtain ⟨hg', _⟩ := inv_step_queue beh content st st' shots h hrep hg
+  rcases flush_decompose beh content st st' shots h hg with hs | ⟨t, hr, hI⟩
+  · subst hs; intro w; exact List.Pairwise.nil
+  · exact Props.C02.handed_rects_disjoint_of_inv beh st st' t shots hr hI.dinv
+      (visitIds_nodup st'.tree hg'.tinv.ok hg'.tinv.ord hg'.pc _ 0)
 
 /-! ### non-vacuity of the full statements -/
 
